@@ -83,6 +83,7 @@ type Config struct {
 	MaxExecs   int64     // 0 = none
 	Shard      int       // this worker's index
 	NShards    int       // 0 or 1 = no sharding
+	Retries    int       // how often an execution whose prefix replay diverged is re-run before that is a harness fault
 	ShardDepth int       // deviation depth at which subtrees are dealt to workers (default 2)
 	// Claim, when non-nil, replaces static hashing: all workers walk the shared top of the tree in
 	// the same order; the first worker to reach a subtree root (or a shared-top execution) claims it
@@ -100,6 +101,7 @@ type Stats struct {
 	MaxDepth    int
 	Capped      bool // a deadline or execution cap stopped the search early
 	BoundPruned int64
+	Retried     int64 // executions re-run because replaying their prefix diverged once (transient harness glitch)
 }
 
 type node struct {
@@ -155,8 +157,24 @@ func Explore(cfg Config, run func(x *Exec, owned bool)) Stats {
 			st.Capped = true
 			break
 		}
-		x := &Exec{prefix: nd.prefix, expect: nd.expect}
-		run(x, nd.owned)
+		// A divergence while replaying a prefix is a harness fault. Harnesses that talk over real sockets
+		// can suffer a transient glitch (a failed dial under extreme load), so the execution is retried
+		// before the fault is declared; every retry is counted and reported.
+		var x *Exec
+		for attempt := 0; ; attempt++ {
+			x = &Exec{prefix: nd.prefix, expect: nd.expect}
+			div := runCatchingDivergence(run, x, nd.owned)
+			if div == nil && len(x.Trace) >= len(nd.prefix) {
+				break
+			}
+			if attempt >= cfg.Retries {
+				if div != nil {
+					panic(*div)
+				}
+				break // reported below with full detail
+			}
+			st.Retried++
+		}
 		if nd.owned {
 			st.Execs++
 			st.Points += int64(len(x.Trace))
@@ -218,9 +236,23 @@ func Explore(cfg Config, run func(x *Exec, owned bool)) Stats {
 					}
 					// cd > sd: inherits (only reachable inside an owned subtree)
 				}
-				stack = append(stack, node{prefix: child, expect: x.Trace[:i+1 : i+1], from: i + 1, cost: cost + p.Cost, ddepth: cd, owned: owned, claim: claim})
+				stack = append(stack, node{prefix: child, expect: x.Trace[: i+1 : i+1], from: i + 1, cost: cost + p.Cost, ddepth: cd, owned: owned, claim: claim})
 			}
 		}
 	}
 	return st
+}
+
+func runCatchingDivergence(run func(x *Exec, owned bool), x *Exec, owned bool) (div *HarnessError) {
+	defer func() {
+		if r := recover(); r != nil {
+			if he, ok := r.(HarnessError); ok && len(he.Msg) > 17 && he.Msg[:17] == "replay divergence" {
+				div = &he
+				return
+			}
+			panic(r)
+		}
+	}()
+	run(x, owned)
+	return nil
 }
